@@ -12,8 +12,9 @@ class InfoFiles:
         self.fs = fs
 
     def all_info_files(self, path):
-        norm_path = os.path.normpath(path)
-        info_dir = os.path.join(norm_path, 'info')
+        # (no normpath here: it collapses 'link/..' textually and would read
+        # the info directory of another trash directory than the one named)
+        info_dir = os.path.join(path, 'info')
         try:
             for info_file in self.fs.list_files_in_dir(info_dir):
                 if not is_trashinfo_name(os.path.basename(info_file)):
